@@ -70,6 +70,9 @@ BASE_LINKS = [
     ("root/l_loop.liquid", "l_loop.liquid", False),
     ("root/sub/l_up.liquid", "../../outside/a.liquid", False),
     ("root2/l_out2.liquid", "../outside/secret.txt", False),
+    ("root/l_sib.liquid", "../root2/e.liquid", False),        # 'root2' starts with 'root': string-prefix containment tests
+    ("root/ld_sib", "../root2", True),
+    ("root/sub/ld_nested", "../ld_out", True),                # a link reached through another link
     ("pkgs/@PKG@/templates/l_out.liquid", "../other/x.liquid", False),
 ]
 
@@ -303,7 +306,9 @@ class C22:
                    "dots.tar", "back\\slash.liquid", "sub/noext", "e", "e.liquid", "sub/f.liquid", ".../x.liquid",
                    "l_in.liquid", "l_in", "l_out.liquid", "l_out", "l_abs_out.liquid", "ld_out/secret.txt",
                    "ld_out/a.liquid", "ld_out/a", "ld_in/c.liquid", "l_dangling.liquid", "l_loop.liquid",
-                   "sub/l_up.liquid", "l_out2.liquid", "ld_out/sub/c.liquid", "zz", "zz.liquid"])
+                   "sub/l_up.liquid", "l_out2.liquid", "ld_out/sub/c.liquid", "zz", "zz.liquid", "l_sib.liquid", "l_sib",
+                   "ld_sib/e.liquid", "ld_sib/e", "ld_sib/sub/f.liquid", "sub/ld_nested/secret.txt",
+                   "sub/ld_nested/a.liquid"])
         mode = rng.weighted([("plain", 30), ("dotdot", 12), ("abs", 10), ("sep", 8), ("ctrl", 6), ("long", 4),
                              ("trail", 4), ("random", 8), ("surrogate", 2), ("dots", 4)])
         base = rng.choice(firsts)
@@ -316,6 +321,8 @@ class C22:
                 "sub/../../outside/a.liquid", "sub/../a.liquid", "./../secret.liquid", "..", "../", "..//secret.liquid",
                 "sub/deep/../../../secret.liquid", "../secret", "..\\outside\\secret.txt", "sub/..", "a.liquid/..",
                 "../" + sc["pkg"] + "/secret.liquid", "../other/x.liquid", "../other/x", "..%2fsecret.liquid",
+                "..\\other\\x.liquid", "..\\other\\x", "..\\secret.liquid", "..\\secret", "sub\\..\\..\\secret",
+                "..\\outside\\secret", "..\\..\\..\\outside\\secret.txt", "..\\a.liquid", "..\\a",
                 base + "/../../outside/secret.txt", "../root/a.liquid", "../root2/e.liquid", ". ./a", "../templates/p"])
         if mode == "abs":
             return rng.choice([
@@ -323,7 +330,9 @@ class C22:
                 ab + "/root/a.liquid", ab + "/root/a", "/" + base, "//" + base, "///" + base, "/etc/hostname",
                 "/etc/passwd", ab + "/pkgs/" + sc["pkg"] + "/other/x.liquid", ab + "/pkgs/" + sc["pkg"] + "/secret",
                 "/", "//", ab + "/outside/../outside/secret.txt", ab + "//outside/secret.txt",
-                ab + "/pkgs/" + sc["pkg"] + "/templates/p.liquid", ab + "/a", "~" + ab + "/secret.liquid"])
+                ab + "/pkgs/" + sc["pkg"] + "/templates/p.liquid", ab + "/a", "~" + ab + "/secret.liquid",
+                ab.replace("/", "\\") + "\\outside\\secret.txt", ab.replace("/", "\\") + "\\secret.liquid",
+                "\\etc\\hostname"])
         if mode == "sep":
             return rng.choice(["./" + base, "sub//c.liquid", ".//" + base, "sub/./c.liquid", "sub\\c.liquid",
                                "./sub/./deep/./d.liquid", base.replace("/", "//"), "\\" + base, "sub/./q.liquid"])
@@ -588,6 +597,11 @@ class C22:
             add("containment", "outside-content:%s:%s" % ("symlink" if via_link else "lexical", feat),
                 {"op": op, "returned": tok, "file": tree.real_by_tok.get(tok.split("v")[0], "?").replace(tree.abs, "@ABS@"),
                  "permitted": sorted(allowed), "reject_symlinks": reject})
+            return
+        if feat == "link" and reject and tok in tree.resolve(name, bases, sc["ext"], False, False):
+            # the link leads out of this search directory but into another CONFIGURED one: the
+            # loader rejects it per base; accepting it would not read outside the search directories
+            bump(st, "relaxed.link_into_other_search_path")
             return
         if feat in ("dotdot", "abs"):
             # a name the documented contract rejects, answered with a file that IS inside the search
